@@ -46,6 +46,28 @@ def fresh(name, sort='int'):
 # element i of a mapped sequence, the facts and obligations produced for that element go to the
 # state on top of this stack.
 SINK = []
+_fw = __import__('itertools').count()
+
+
+def _collect_stores(v, acc, seen=None):
+    seen = set() if seen is None else seen
+    if id(v) in seen:
+        return
+    seen.add(id(v))
+    if isinstance(v, ArrStore):
+        acc[id(v)] = v
+    elif isinstance(v, SArr):
+        if v.store is not None:
+            acc[id(v.store)] = v.store
+    elif isinstance(v, SObj):
+        for x in v.fields.values():
+            _collect_stores(x, acc, seen)
+    elif isinstance(v, dict):
+        for x in v.values():
+            _collect_stores(x, acc, seen)
+    elif isinstance(v, (list, tuple)):
+        for x in v:
+            _collect_stores(x, acc, seen)
 
 
 def mask_key(m):
@@ -69,8 +91,8 @@ class State:
         self.lazy_checks = []   # obligations of code evaluated lazily while this state reads
         self.trace = []
 
-    def clone(self):
-        memo = {}
+    def clone(self, memo=None):
+        memo = {} if memo is None else memo
         s = State()
         s.env = {k: _clone(v, memo) for k, v in self.env.items()}
         s.pc = list(self.pc)
@@ -126,6 +148,7 @@ def _clone(v, memo):
             return memo[id(v)]
         o = ArrStore(v.shape, v.fn, v.kind, v.name)
         o.finite = v.finite
+        o.frozen = getattr(v, 'frozen', False)
         memo[id(v)] = o
         return o
     if isinstance(v, SArr) and v.store is not None:
@@ -404,6 +427,9 @@ class Executor:
             items = self.concrete_iter(it)
             if items is None:
                 spec = self.loop_specs.get(node.lineno) or self.loop_specs.get('for')
+                if spec is None and isinstance(it, SSeq):
+                    outs.append(self.map_append_loop(node, s2, it))
+                    continue
                 if spec is None:
                     raise Unsupported(f'for over symbolic iterable at line {node.lineno} '
                                       '(needs a loop contract)')
@@ -421,6 +447,128 @@ class Executor:
                 states = [(s, ('fall', None) if oc[0] == 'continue' else oc) for s, oc in nxt]
             outs.extend((s, ('fall', None) if oc[0] == 'break' else oc) for s, oc in states)
         return outs
+
+    def map_append_loop(self, node, st, it):
+        """`for x in seq: ...; out.append(e)` over a symbolic sequence with no loop-carried state:
+        every list appended to becomes the sequence k -> e(seq[k]).
+
+        Conditions (else Unsupported): the body is straight-line (assignments to local names,
+        subscript stores, and exactly one `L.append(e)` per list L, each L a concrete list
+        before the loop and mentioned nowhere else in the body); every local the body writes is
+        written before it is read in an iteration (such names are removed from the state before
+        an iteration runs and after the loop); a trial iteration at a fresh index writes no
+        array that existed before the loop and sets no attribute."""
+        body = node.body
+        appends = {}        # list name -> index of the statement
+        written = set()
+        for i, stmt in enumerate(body):
+            if isinstance(stmt, ast.Expr) and isinstance(stmt.value, ast.Call) \
+                    and isinstance(stmt.value.func, ast.Attribute) \
+                    and stmt.value.func.attr == 'append' \
+                    and isinstance(stmt.value.func.value, ast.Name) \
+                    and len(stmt.value.args) == 1 and not stmt.value.keywords:
+                name = stmt.value.func.value.id
+                if name in appends:
+                    raise Unsupported('two appends to one list in a loop body')
+                appends[name] = i
+                continue
+            if isinstance(stmt, ast.Assign):
+                for t in stmt.targets:
+                    for x in ast.walk(t):
+                        if isinstance(x, ast.Attribute) and isinstance(x.ctx, ast.Store):
+                            raise Unsupported('attribute store in a map loop')
+                    if isinstance(t, ast.Name):
+                        written.add(t.id)
+                    elif isinstance(t, (ast.Tuple, ast.List)):
+                        for e in t.elts:
+                            if not isinstance(e, ast.Name):
+                                raise Unsupported('complex target in a map loop')
+                            written.add(e.id)
+                    elif isinstance(t, ast.Subscript) and isinstance(t.value, ast.Name):
+                        pass
+                    else:
+                        raise Unsupported('complex target in a map loop')
+                continue
+            raise Unsupported(f'statement {type(stmt).__name__} in a loop over a symbolic '
+                              f'sequence at line {node.lineno} (needs a loop contract)')
+        if not appends:
+            raise Unsupported('loop over a symbolic sequence without an append')
+        for t in ast.walk(node.target):
+            if isinstance(t, ast.Name):
+                written.add(t.id)
+        for name, i in appends.items():
+            if not isinstance(st.env.get(name), list):
+                raise Unsupported(f'{name} is not a concrete list before the loop')
+            for j, stmt in enumerate(body):
+                for x in ast.walk(stmt):
+                    if isinstance(x, ast.Name) and x.id == name and not (
+                            j == i and x is stmt.value.func.value):
+                        raise Unsupported(f'list {name} used inside the loop body')
+            if name in written:
+                raise Unsupported(f'list {name} rebound inside the loop body')
+
+        def iteration(k, base):
+            memo = {}
+            s2 = base.clone(memo)
+            for w in written:
+                s2.env.pop(w, None)
+            self.assign(node.target, it.fn(k), s2)
+            vals = {}
+            for i, stmt in enumerate(body):
+                if i in appends.values():
+                    name = [n for n, j in appends.items() if j == i][0]
+                    vals[name] = self.eval1(stmt.value.args[0], s2)
+                    continue
+                outs = self.exec_stmt(stmt, s2)
+                if len(outs) != 1 or outs[0][1][0] != 'fall':
+                    raise Unsupported('loop body forks or leaves the loop')
+                s2 = outs[0][0]
+            return s2, vals, memo
+
+        # trial iteration at a fresh index: structure, frame and safety obligations
+        k = fresh('it', 'int')
+        trial_base = st.clone()
+        trial_base.assume(z3.And(k >= 0, k < num_term(it.length)))
+        s2, vals, memo = iteration(k, trial_base)
+        # stores reachable before the loop must be untouched: compare element functions
+        pre = {}
+        _collect_stores(trial_base.env, pre)
+        post = {}
+        _collect_stores(s2.env, post)
+        # (the iteration cloned trial_base: map clone -> original through memo)
+        for orig_id, cl in memo.items():
+            if isinstance(cl, ArrStore) and orig_id in pre:
+                if cl.fn is not pre[orig_id].fn or cl.finite is not pre[orig_id].finite:
+                    raise Unsupported('loop body writes an array that exists before the loop')
+        for lab, hyps, f in s2.checks[len(st.checks):]:
+            st.checks.append((lab, hyps, f))
+        nprefix = {name: list(st.env[name]) for name in appends}
+        for name in appends:
+            prefix = nprefix[name]
+
+            def fn(i, name=name, prefix=prefix):
+                c = concrete(i)
+                if prefix:
+                    if c is None:
+                        raise Unsupported('symbolic index into a list with a concrete prefix')
+                    if c < len(prefix):
+                        return prefix[c]
+                    i = c - len(prefix)
+                s3, vals3, _ = iteration(i, st_snapshot)
+                sink = SINK[-1] if SINK else None
+                if sink is not None:
+                    for lab, hyps, f in s3.checks[len(st_snapshot.checks):]:
+                        sink.lazy_checks.append((lab, hyps, f))
+                    for f in s3.facts[len(st_snapshot.facts):]:
+                        sink.facts.append(f)
+                return vals3[name]
+            st.env[name] = SSeq(z3.simplify(num_term(it.length) + len(prefix)), fn, 'obj')
+        for w in written:
+            st.env.pop(w, None)
+        st_snapshot = st.clone()
+        for name in appends:
+            st_snapshot.env[name] = nprefix[name]
+        return (st, ('fall', None))
 
     def st_While(self, node, st):
         spec = self.loop_specs.get(node.lineno) or self.loop_specs.get('while')
@@ -1076,6 +1224,28 @@ class Executor:
             bag = SBag(a.shape, mf, snap(a), a.kind)
             bag.mask_id = mask_key(m)
             return bag
+        if len(idx) == 1 and isinstance(idx[0], (SArr, SSeq)) and a.ndim == 1 \
+                and idx[0].kind == 'int':
+            # integer-array ("fancy") read of a 1-D table: a value array shaped like the index
+            ix = idx[0]
+            af = snap(a)
+            n = a.shape[0]
+            if isinstance(ix, SArr):
+                xf = snap(ix)
+                p = tuple(fresh('fi', 'int') for _ in ix.shape)
+                guard = z3.And(*[z3.And(x >= 0, x < num_term(d)) for x, d in zip(p, ix.shape)])
+                if st is not None:
+                    st.check('fancy index within bounds',
+                             z3.Implies(guard, z3.And(num_term(xf(p)) >= 0,
+                                                      num_term(xf(p)) < num_term(n))))
+                return SArr(ix.shape, lambda q: af((xf(q),)), a.kind)
+            p = fresh('fi', 'int')
+            if st is not None:
+                st.check('fancy index within bounds',
+                         z3.Implies(z3.And(p >= 0, p < num_term(ix.length)),
+                                    z3.And(num_term(ix.fn(p)) >= 0,
+                                           num_term(ix.fn(p)) < num_term(n))))
+            return SSeq(ix.length, lambda q: af((ix.fn(q),)), a.kind)
         if len(idx) == 1 and isinstance(idx[0], tuple):
             idx = idx[0]
         if len(idx) > a.ndim:
@@ -1146,6 +1316,11 @@ class Executor:
         if a.store is None:
             raise Unsupported('in-place write to an array without identity')
         store = a.store
+        if getattr(store, 'frozen', False):
+            raise Unsupported('in-place write to an element of a symbolic sequence of arrays')
+        if idx is not None and len(idx) == 1 and isinstance(idx[0], (SArr, SSeq)) \
+                and idx[0].kind == 'int':
+            return self.fancy_write(a, idx[0], v, st)
         old = store.fn
         oldfin = store.finite
         target = a if idx is None or (len(idx) == 1 and isinstance(idx[0], SArr)
@@ -1215,6 +1390,55 @@ class Executor:
                 store.finite = lambda p: self.ite(inside(p), vfin(local(p)), oldfin(p))
             else:
                 store.finite = lambda p: z3.Or(inside(p), to_bool(oldfin(p)))
+
+    def fancy_write(self, a, ix, v, st):
+        """table[S] = V for a 1-D table with identity, S a 1-D integer sequence, V a scalar or a
+        sequence of the same length.  numpy stores in order, so for a repeated index the last
+        store wins: new(q) = V(w(q)) if q occurs in S, else old(q), where w(q) is the last
+        position of q in S (an uninterpreted function constrained by quantified facts)."""
+        if a.ndim != 1 or any(not kp for kp in a.keep) or concrete(a.off[0]) != 0:
+            raise Unsupported('integer-array store into a view')
+        store = a.store
+        if isinstance(ix, SArr):
+            if ix.ndim != 1:
+                raise Unsupported('integer-array store with a multi-dimensional index')
+            xs = snap(ix)
+            sfn, n = (lambda k: xs((k,))), ix.shape[0]
+        else:
+            sfn, n = ix.fn, ix.length
+        n = num_term(n)
+        old = store.fn
+        k = fresh('fk', 'int')
+        st.check('fancy store index within bounds',
+                 z3.Implies(z3.And(k >= 0, k < n),
+                            z3.And(num_term(sfn(k)) >= 0,
+                                   num_term(sfn(k)) < num_term(store.shape[0]))))
+        uid = next(_fw)
+
+        def member(q):
+            kk = z3.Int(f'bv!fw{uid}')
+            return z3.Exists([kk], z3.And(kk >= 0, kk < n, num_term(sfn(kk)) == num_term(q)))
+        if isinstance(v, (SArr, SSeq)):
+            if isinstance(v, SArr):
+                if v.ndim != 1:
+                    raise Unsupported('integer-array store of a multi-dimensional value')
+                vs = snap(v)
+                vfn, vn = (lambda j: vs((j,))), v.shape[0]
+            else:
+                vfn, vn = v.fn, v.length
+            st.check('fancy store: value length equals index length', num_term(vn) == n)
+            w = z3.Function(f'lastpos!{uid}', z3.IntSort(), z3.IntSort())
+            q, j = z3.Int(f'bv!fq{uid}'), z3.Int(f'bv!fj{uid}')
+            st.fact(z3.ForAll([q], z3.Implies(
+                member(q),
+                z3.And(w(q) >= 0, w(q) < n, num_term(sfn(w(q))) == q,
+                       z3.ForAll([j], z3.Implies(z3.And(j > w(q), j < n),
+                                                 num_term(sfn(j)) != q))))))
+            store.fn = lambda p, old=old: self.ite(member(p[0]), vfn(w(num_term(p[0]))), old(p))
+        elif is_num(v):
+            store.fn = lambda p, old=old: self.ite(member(p[0]), v, old(p))
+        else:
+            raise Unsupported('integer-array store of this value')
 
     def ite(self, c, a, b):
         c = z3.simplify(to_bool(c))
